@@ -105,20 +105,21 @@ const simOpYieldCap = 4 * maxBaselineYields
 // ---- planning ----
 
 type Tier struct {
-	Extra     map[string]int // additional focused rounds for small families that the property names explicitly
-	Rounds    int            // focused private rounds over the whole catalogue
-	Reps      int            // repetitions of each catalogue entry per task in the focused private runs
-	Name      string
-	MaxTasks  int
-	Faults    bool
-	ChunkSize int
-	NShared   int
-	NRecycle  int
+	PairRounds int            // rounds over all pairs of "sec" entries
+	Extra      map[string]int // additional focused rounds for small families that the property names explicitly
+	Rounds     int            // focused private rounds over the whole catalogue
+	Reps       int            // repetitions of each catalogue entry per task in the focused private runs
+	Name       string
+	MaxTasks   int
+	Faults     bool
+	ChunkSize  int
+	NShared    int
+	NRecycle   int
 }
 
 var Tiers = map[string]Tier{
-	"quick":    {Name: "quick", Extra: map[string]int{"sec": 12, "roundtrip": 8, "hist": 4, "fn": 4}, Rounds: 1, Reps: 6, MaxTasks: 8, Faults: true, ChunkSize: 1, NShared: 24, NRecycle: 24},
-	"thorough": {Name: "thorough", Extra: map[string]int{"sec": 120, "roundtrip": 40, "hist": 20, "fn": 8, "accessors": 4}, Rounds: 4, Reps: 8, MaxTasks: 64, Faults: true, ChunkSize: 1, NShared: 96, NRecycle: 96},
+	"quick":    {Name: "quick", PairRounds: 1, Extra: map[string]int{"sec": 12, "roundtrip": 8, "hist": 4, "fn": 4}, Rounds: 1, Reps: 6, MaxTasks: 8, Faults: true, ChunkSize: 1, NShared: 24, NRecycle: 24},
+	"thorough": {Name: "thorough", PairRounds: 6, Extra: map[string]int{"sec": 120, "roundtrip": 40, "hist": 20, "fn": 8, "accessors": 4}, Rounds: 4, Reps: 8, MaxTasks: 64, Faults: true, ChunkSize: 1, NShared: 96, NRecycle: 96},
 }
 
 // NumFocused is the number of focused runs of a tier (they come first).
@@ -149,6 +150,9 @@ func FocusGroups(t Tier) [][2]int {
 	fl := focusList(t)
 	var out [][2]int
 	typeOf := func(i int) string {
+		if fl[i] >= pairBase {
+			return ""
+		}
 		e := Cat.Entries[fl[i]]
 		if e.Fam != "method" {
 			return ""
@@ -179,6 +183,11 @@ func FocusGroups(t Tier) [][2]int {
 	return out
 }
 
+// pair runs: two different entries of the "sec" family in one focused run (a call of
+// one kind overlapping a call of another kind: ciphering while another task computes
+// a MAC, NEA2 next to NIA2, ...). Encoded in the focus list as pairBase + a*4096 + b.
+const pairBase = 1 << 24
+
 var focusCache = map[string][]int{}
 
 // focusList: catalogue entry index of every focused private run, in order:
@@ -202,8 +211,29 @@ func focusList(t Tier) []int {
 			}
 		}
 	}
+	var sec []int
+	for i := range Cat.Entries {
+		if Cat.Entries[i].Fam == "sec" {
+			sec = append(sec, i)
+		}
+	}
+	for r := 0; r < t.PairRounds; r++ {
+		for x := 0; x < len(sec); x++ {
+			for y := x + 1; y < len(sec); y++ {
+				l = append(l, pairBase+sec[x]*4096+sec[y])
+			}
+		}
+	}
 	focusCache[t.Name] = l
 	return l
+}
+
+func focusEntries(code int) []OpSpec {
+	if code >= pairBase {
+		c := code - pairBase
+		return []OpSpec{Cat.Entries[c/4096], Cat.Entries[c%4096]}
+	}
+	return Cat.Entries[code : code+1]
 }
 
 var ks = []int{1, 2, 3, 5, 10, 50, 500}
@@ -253,13 +283,16 @@ func PlanRun(seed, index uint64, tierName string) *Plan {
 		// one run per catalogue entry and round: few tasks, the same operation many
 		// times, arguments drawn from a small pool of (partly perturbed) seeds
 		p.Kind, p.Mode = "focused", "private"
-		chunk := Cat.Entries[fl[index] : fl[index]+1]
+		chunk := focusEntries(fl[index])
 		sd := newSeedDraw(r, []int{45, 70, 85}[r.Intn(3)])
 		ntask := 2 + r.Intn(3)
 		// cheap operations are repeated more often: about 1500 yields per task, at
 		// least Reps and at most 10 x Reps calls (costs come from the probe step)
 		reps := t.Reps
-		if cost := Cat.Cost[fl[index]]; cost > 0 {
+		if fl[index] >= pairBase {
+			reps = t.Reps
+		} else if fl[index] < len(Cat.Cost) && Cat.Cost[fl[index]] > 0 {
+			cost := Cat.Cost[fl[index]]
 			if n := 1500 / cost; n > reps {
 				reps = n
 			}
